@@ -7,12 +7,11 @@ complete coefficient maps.  Oracle (driver): independent exact Taylor/Laurent co
 import vlib
 
 PROOF_MODULES = []   # the C31 files are compiled directly (see the report); not yet in _CoqProject
-OBLIGATIONS_PLANNED = [
-    "C31/P_mul_spec.v", "C31/P_invert_spec.v", "C31/P_invert_congruence.v", "C31/P_step_list.v",
-    "C31/P_log_spec.v", "C31/P_atan_spec.v", "C31/P_atanh_spec.v", "C31/P_ode_unique.v",
-    "C31/P_exp_spec.v", "C31/P_nthroot_spec.v", "C31/P_refuted.v", "C31/P_nonvacuous.v",
+OBLIGATIONS = [
+    "C31/P_mul_spec.v", "C31/P_pow_spec.v", "C31/P_step_list.v", "C31/P_invert_spec.v", "C31/P_invert_congruence.v",
+    "C31/P_log_spec.v", "C31/P_atan_spec.v", "C31/P_atanh_spec.v", "C31/P_exp_spec.v", "C31/P_nthroot_spec.v",
+    "C31/P_ode_unique.v", "C31/P_refuted.v", "C31/P_nonvacuous.v",
 ]
-OBLIGATIONS = []
 
 KEY_OF_TAG = {
     "[shift]": "C31/precision-loss-dividing-by-series-without-constant-term",
